@@ -127,6 +127,14 @@ func scrapeFiles(files []*ast.File, kw, pre map[string]bool) {
 						}
 					}
 				}
+			case *ast.ValueSpec:
+				// named string constants (`directiveRotateSize = "rotate_size"`): the
+				// case clauses and comparisons that use them name the identifier, not the literal
+				for _, e := range x.Values {
+					if s, ok := litString(e); ok && tokenLike(s, 32) {
+						kw[s] = true
+					}
+				}
 			case *ast.BasicLit:
 				if s, ok := litString(x); ok && tokenLike(s, 16) && looksLikePrefix(s) {
 					pre[s] = true
